@@ -16,7 +16,7 @@ META = {
              'Paragraphs with inline child elements are outside the claim. Signature = (story count, timing, ..., '
              'paragraph and item counts, producing message kind).'),
     'workers': {'quick': 12, 'thorough': 16},
-    'watchdog': {'quick': 300, 'thorough': 1800},
+    'watchdog': {'quick': 600, 'thorough': 3600},
 }
 
 
